@@ -7,6 +7,7 @@ package h
 import (
 	"fmt"
 	"strings"
+	"sync"
 	"unsafe"
 
 	"github.com/rminnich/go9p"
@@ -141,6 +142,10 @@ type ScriptFS struct {
 	// cfg "sharedir": like a file server that keeps one description per file (the library's own Fsrv does), every
 	// Tstat is answered from the same long-lived Dir, whatever the connection and its dialect
 	sharedDir *go9p.Dir
+	// cfg "dispatcher": late answers (PAsync) are given by one event-loop goroutine of the implementation
+	dq          []*Inv
+	dqMu        sync.Mutex
+	dispStarted bool
 }
 
 func NewScriptFS(x *Ctx) *ScriptFS {
@@ -310,10 +315,12 @@ func (f *ScriptFS) answer(inv *Inv, variant int) {
 		req.RespondRremove()
 	case "stat":
 		if f.x.C.cfg("sharedir") != 0 && p.StatNameLen == 0 {
+			f.dqMu.Lock() // (real mutex: whoever made the Dir happens-before whoever uses it, as in a real implementation)
 			if f.sharedDir == nil {
 				f.sharedDir = &go9p.Dir{Type: 7, Dev: 9, Qid: go9p.Qid{Type: 0, Version: 1, Path: 4242}, Mode: 0o644, Atime: 5, Mtime: 6, Length: 77,
 					Name: "kept-by-the-file-server", Uid: "uid", Gid: "gid", Muid: "muid", Ext: "", Uidnum: 1, Gidnum: 2, Muidnum: 3}
 			}
+			f.dqMu.Unlock()
 			m = &Msg{Type: Rstat, Stat: Stat{Type: 7, Dev: 9, Qid: Qid{0, 1, 4242}, Mode: 0o644, Atime: 5, Mtime: 6, Length: 77,
 				Name: "kept-by-the-file-server", Uid: "uid", Gid: "gid", Muid: "muid", Nuid: 1, Ngid: 2, Nmuid: 3}}
 			f.setExpect(inv, variant, m)
@@ -395,6 +402,32 @@ func (f *ScriptFS) dispatch(op string, req *go9p.SrvReq) {
 			rt.YieldUntil(rt.SiteHold, func() bool { return f.released(inv) })
 			inv.Held = false
 			if inv.answeredByFlush {
+				return
+			}
+			if f.x.C.cfg("dispatcher") != 0 {
+				// an implementation with an event loop: one goroutine of its own gives all the late answers
+				// (a real mutex, never contended: the race detector must see the hand-over an implementation's queue gives)
+				f.dqMu.Lock()
+				f.dq = append(f.dq, inv)
+				f.dqMu.Unlock()
+				if !f.dispStarted {
+					f.dispStarted = true
+					rt.Go(rt.SiteSpawn, func() {
+						rt.SetName("implementation-event-loop")
+						for {
+							rt.YieldUntil(rt.SiteHold, func() bool {
+								f.dqMu.Lock()
+								defer f.dqMu.Unlock()
+								return len(f.dq) > 0
+							})
+							f.dqMu.Lock()
+							next := f.dq[0]
+							f.dq = f.dq[1:]
+							f.dqMu.Unlock()
+							f.answer(next, 0)
+						}
+					})
+				}
 				return
 			}
 			f.answer(inv, 0)
